@@ -84,12 +84,12 @@ def size_of(spec):
 _ENUMS = {}
 
 
-def make_enum(name, members, shape, base=None):
+def make_enum(name, members, shape, base=None, **kw):
     base = base or aenum.Enum
-    ns = aenum.EnumType.__prepare__(name, (base,), shape=shape)
+    ns = aenum.EnumType.__prepare__(name, (base,), shape=shape, **kw)
     for k, v in members.items():
         ns[k] = v
-    return aenum.EnumType(name, (base,), ns, shape=shape)
+    return aenum.EnumType(name, (base,), ns, shape=shape, **kw)
 
 
 def enum_for(w, signed=False):
@@ -335,7 +335,7 @@ class LayoutDesign:
             apath, abase, aspec = self.arr
             n, ew = aspec[2], size_of(aspec[1])
             self.idx = Signal(max(1, (n - 1).bit_length()), name="idx")
-            self.od = Signal(ew, name="od")
+            self.od = Signal(Shape(ew + 2, True), name="od")       # wide and signed: the element's own signedness shows
             self.wd = Signal(ew + 1, name="wd")
             m.d.comb += self.od.eq(Value.cast(nav(self.sig, apath)[self.idx]))
             m.d.sync += nav(self.reg2, apath)[self.idx].eq(self.wd)
@@ -363,8 +363,10 @@ class LayoutDesign:
             idx = pre["idx"]
             inr = idx < n
             sh_ = abase + idx * ew
+            elem = aspec[1]
+            ebits = (refsem.to_unsigned(raw, self.size) >> sh_) & refsem.mask(ew)
             out.append((f"view{list(apath)}[idx] (idx < {n})", sym_ite(inr, obs["od"], 0),
-                        sym_ite(inr, (refsem.to_unsigned(raw, self.size) >> sh_) & refsem.mask(ew), 0)))
+                        sym_ite(inr, refsem.in_shape(ebits, ew, elem[0] in SIGNED), 0)))
             r2, r2n = refsem.to_unsigned(pre["reg2"], self.size), refsem.to_unsigned(post["reg2"], self.size)
             m_ = refsem.mask(ew) << sh_
             want = (r2 & ~m_) | ((refsem.to_unsigned(pre["wd"], ew) << sh_) & m_)
@@ -386,7 +388,9 @@ def sim_obligations(job, spec, L, layout, leaves, size):
             D = LayoutDesign(spec, windex)
             sim = symsim.SymSim(D.m)
         except Exception as ex:
-            return [dict(base, status=ERROR, detail=f"{type(ex).__name__}: {ex}")]
+            # the layouts are well-formed: a signal of the layout, its views and assignments through them must build
+            return [dict(base, status=VIOLATION, detail=f"{text}: building views / assignments raised {type(ex).__name__}: {str(ex)[:300]}",
+                         signature={"kind": "view-exception"}, replay={"spec": spec})]
     names = {"sig": D.sig.as_value(), "reg": D.reg.as_value(), "reg2": D.reg2.as_value(), "wv": D.wv, "wd": D.wd, "idx": D.idx}
 
     def scen():
@@ -492,12 +496,14 @@ def enum_job(job):
     r = dict(base, id="enum-roundtrip", kind="enum const/from_bits", assertion="E.from_bits(E.const(m)) is m and the constant has the member's value in the enum's shape")
     out.append(dict(r, status=VIOLATION, detail="; ".join(bad[:4]), signature={"kind": "enum"}, replay={"enum": True}) if bad else dict(r, status=PROVED))
     # FlagView operators vs Python's enum.Flag, all operand values symbolic
-    for w, gaps in ((2, False), (3, False), (3, True)):
-        names = {f"F{k}": 1 << k for k in range(w) if not (gaps and k == 1)}
+    for w, gaps, boundary in ((2, False, None), (3, False, None), (3, True, None), (3, True, py_enum.EJECT), (3, True, py_enum.KEEP), (3, True, py_enum.CONFORM),
+                              (4, True, py_enum.EJECT), (3, False, py_enum.KEEP)):
+        names = {f"F{k}": 1 << k for k in range(min(w, 3)) if not (gaps and k == 1)}
         if gaps:
             names["COMBO"] = 0b101
-        Fl = make_enum(f"Fx{w}{gaps}", names, w, aenum.Flag)
-        PyFl = py_enum.Flag(f"Py{w}{gaps}", names)
+        bkw = {} if boundary is None else {"boundary": boundary}
+        Fl = make_enum(f"Fx{w}{gaps}", names, w, aenum.Flag, **bkw)
+        PyFl = py_enum.Flag(f"Py{w}{gaps}", names, **bkw)
         a, b = Signal(Fl, name="a"), Signal(Fl, name="b")
         m = Module()
         outs = {}
@@ -520,16 +526,29 @@ def enum_job(job):
             if f.value & (f.value - 1) == 0:
                 singles |= f.value
         # reference: Python's operators on the same integers (validated below against enum.Flag itself)
-        want = {"or": av | bv, "and": av & bv, "xor": av ^ bv, "inv": (~av) & singles}
-        conds = [bool_term(got[k] != want[k]) for k in got if (got[k] != want[k]) is not False]
-        # validate the reference against enum.Flag on every pair of valid flag values
-        allv = [x for x in range(1 << w) if (x & ~singles) == 0 or True]
+        want = {"or": av | bv, "and": av & bv, "xor": av ^ bv}
+        conds = [bool_term(got[k] != want[k]) for k in want if (got[k] != want[k]) is not False]
+        # ~ : the table enum.Flag itself gives (modulo 2**w) on every value it accepts, the operand staying symbolic
+        valid = {}
         for x in range(1 << w):
-            if x & ~singles:
+            try:
+                fx = PyFl(x)
+                if not isinstance(fx, PyFl) or fx.value != x:
+                    continue            # EJECT hands back a plain int, CONFORM another value: x is not a flag value
+                valid[x] = int(getattr(~fx, "value", ~fx)) & ((1 << w) - 1)
+            except ValueError:
                 continue
-            assert (~PyFl(x)).value == (~x) & singles, (x, singles)
-        r = dict(base, id=f"flag-ops-w{w}{'-gaps' if gaps else ''}", kind="FlagView operators", nontrivial=True, program=f"Flag with members {names}",
-                 symbolic="both operands", assertion="| & ^ equal the integer operators; ~ complements within the single-bit flags defined (as enum.Flag does)")
+        for x, y in valid.items():
+            ne = sym_and(av == x, got["inv"] != y)
+            if ne is not False:
+                conds.append(bool_term(ne))
+            for x2 in valid:               # the integer reference for | & ^ is what enum.Flag computes
+                for op_ in ("__or__", "__and__", "__xor__"):
+                    pr = getattr(PyFl(x), op_)(PyFl(x2))
+                    assert int(getattr(pr, "value", pr)) == getattr(x, op_)(x2)
+        r = dict(base, id=f"flag-ops-w{w}{'-gaps' if gaps else ''}{'' if boundary is None else '-' + boundary.name}", kind="FlagView operators", nontrivial=True,
+                 program=f"Flag with members {names}, shape {w}, boundary {boundary}", symbolic="both operands",
+                 assertion="| & ^ equal the integer operators; ~ equals enum.Flag's result modulo 2**width on every value enum.Flag accepts")
         if not conds:
             out.append(dict(r, status=PROVED))
             continue
